@@ -24,11 +24,13 @@ REQUIRED_PROBES = {"quick": ("define_refused", "define_ok", "delete_one", "delet
                                 "delete_linked_report")}
 EVIDENCE = {
     "level": "exploration",
-    "rule": ("seeded sequences of S2F33 (define one/many, delete one, delete all, unknown VID, redefinition), S2F35 (link, "
-             "unlink, duplicates inside one request, unknown CEID/RPTID, already linked), S2F37 (listed/all/unknown), "
-             "S6F15, application-side triggers and variable updates over RPTID in {1,2,3}, CEID in {1,2,20,50,99}, VID in "
-             "{10,11,30,1002,9999}; after every operation S6F15 is requested for every known CEID; non-trivial = at "
-             "least one accepted define and one accepted link; distinct = distinct op-kind sequences"),
+    "rule": ("seeded sequences of S2F33 (define one/many, delete one, delete all, unknown VID, redefinition), "
+             "S2F35 (link, unlink, duplicates inside one request, unknown CEID/RPTID, already linked), S2F37 "
+             "(listed/all/unknown), S6F15, application-side triggers and variable updates over RPTID in {1,2,3}, "
+             "CEID in {1,2,20,50,99}, VID in {10,11,30,1002,9999}; triggers of several events per call with the "
+             "first S6F12 withheld or a later event disabled/unlinked meanwhile; after every operation S6F15 is "
+             "requested for every known CEID; non-trivial = at least one accepted define and one accepted link; "
+             "distinct = distinct op-kind sequences"),
     "real": ["secsgem.gem.CollectionEventCapability", "secsgem.gem.StatusDataCollectionCapability",
              "secsgem.gem.DataValueCapability", "secsgem.gem.GemEquipmentHandler", "secsgem.hsms.HsmsProtocol"],
     "stub": ["socket/select (SimSocket)", "scripted host (reference codecs)"],
